@@ -205,8 +205,13 @@ def keep_defs(f):
         d = g(f)
         if d:
             keep.add(d)
-    # everything whose signature mentions the wait-for map (the detection bookkeeping: cycle test, accessor, path formatter)
-    keep |= set(wait_map_fns(f))
+    # the detection bookkeeping whose signature mentions the wait-for map and that has a role: the cycle test (-> bool), the
+    # accessor (-> the Mutex) and the path formatter (-> String); other helpers over the map (e.g. an iterator over the
+    # wait chain shared by the test and the formatter) are inlined into them
+    for d in wait_map_fns(f):
+        out = f.ty(f.fns[d]["output"])
+        if out.k == "bool" or any(x.is_adt("std::sync::Mutex") for x in out.walk()) or out.is_adt("std::string::String") or out.s.endswith("String"):
+            keep.add(d)
     # accessors handing out the metrics collector (observation only; the cross-configuration diff erases them by role)
     keep |= set(metrics_accessors(f))
     # the lifecycle: the async fn whose future a public function hands to tokio's spawn
